@@ -234,8 +234,13 @@ class Engine:
                 if base is not None:
                     self.sim.reach("derived_overlay")
                 rec.rules = (base.rules if base is not None else []) + [(op["sels"][0], how)]
+                more = {}
+                for extra in op.get("more", []) if kind == "tweak" else []:
+                    # one tweaking() call with several entries: each selector gets its own value
+                    more[select(msel.render(extra["sel"], style=op.get("style", 0)), env=env)] = extra["how"][1]
+                    rec.rules.append((extra["sel"], extra["how"]))
                 if kind == "tweak":
-                    rec.overlay = maker.tweaking({sel: how[1]})
+                    rec.overlay = maker.tweaking({sel: how[1], **more})
                 else:
                     rec.overlay = maker.rewriting(
                         {sel: (lambda d, how=how, fas=fas: apply_override(how, d.get(fas), d, real=True))}
